@@ -311,6 +311,10 @@ func amplify(family string, n int) (string, []byte) {
 		return "text/html", []byte(rep("a &amp; b  ", n))
 	case "html-comments":
 		return "text/html", []byte(rep("<!-- c -->", n))
+	case "html-space-comments":
+		return "text/html", []byte("<p>items: " + rep("<!--item-->", n))
+	case "html-space-inline":
+		return "text/html", []byte("<p>items: " + rep("<i></i>", n) + "x")
 	case "html-endtags":
 		return "text/html", []byte("a" + rep(" </b>", n))
 	case "html-inline-ws":
@@ -350,7 +354,7 @@ func amplify(family string, n int) (string, []byte) {
 }
 
 var c10Families = []string{"js-parens", "js-arrays", "js-blocks", "js-cond", "js-not", "js-add", "js-strcat", "js-vars", "js-manyvars", "js-funcs", "js-template", "js-ifelse",
-	"html-nest", "html-divs", "html-attrs", "html-ps", "html-text", "html-comments", "html-endtags", "html-inline-ws", "css-decls", "css-rules", "css-calc", "css-values", "css-selectors", "css-blocks",
+	"html-nest", "html-divs", "html-attrs", "html-ps", "html-text", "html-comments", "html-space-comments", "html-space-inline", "html-endtags", "html-inline-ws", "css-decls", "css-rules", "css-calc", "css-values", "css-selectors", "css-blocks",
 	"svg-path", "svg-nest", "svg-arcs", "xml-nest", "xml-text", "xml-attrs", "json-nest", "json-numbers", "json-objects"}
 
 func c10BuildCases(run *core.Run) []C10Case {
